@@ -47,6 +47,7 @@ type afConf struct {
 	Preload bool     `json:"preload"`
 	Chosen  []string `json:"chosen"`
 	Take    int      `json:"take"`
+	Rep     string   `json:"rep"` // how "none" is written for the optional lists: absent | null | empty
 }
 
 type afDeliv struct {
@@ -273,6 +274,9 @@ func afRunCase(c *afCase) {
 			lays[i] = c.Lay
 		}
 	}
+	if len(lays) == 0 {
+		lays = []afLay{c.Lay} // a file without items: the json array brackets still need a layout
+	}
 	data := afRender(c.Fmt, c.Items, lays, c.Lay.Final, c.Lay.Style)
 	obs := afRunOnce(c, data)
 	if obs.Outcome == "hang" {
@@ -310,6 +314,14 @@ func afProviderConf(c *afCase, path string, yamlShape bool) interface{} {
 		"limit":   c.Conf.Limit,
 		"passes":  c.Conf.Passes,
 		"preload": c.Conf.Preload,
+	}
+	// optional list settings: chosencases (when no tag is listed), headers, uris -- key absent, null, or []
+	// (config.Decode turns [] into an empty non-nil slice, absent / null into nil)
+	switch c.Conf.Rep {
+	case "null":
+		m["chosencases"], m["headers"], m["uris"] = nil, nil, nil
+	case "empty":
+		m["chosencases"], m["headers"], m["uris"] = []interface{}{}, []interface{}{}, []interface{}{}
 	}
 	if len(chosen) > 0 {
 		m["chosencases"] = chosen
